@@ -61,13 +61,54 @@ def generate(rng, tier):
         yield {'kind': 'bits_to_int', 'op': 'bits_to_int', 'bits': bits}
 
 
+def _sequence_cases(rng, tier):
+    """Call sequences inside one process (cases run in order): the same integer rule number at
+    descending and ascending radii (a cache keyed by the rule number alone would serve a table of the
+    wrong width), each preceded by int_to_bits(R, 2^L) whose returned array the harness then overwrites
+    in place (a cached, shared result array would corrupt the later rule evaluations)."""
+    rules = [30, 90, 110, 254, 1, 0, 255, 128, 2] + [rng.randrange(256) for _ in range(8 if tier == 'quick' else 60)]
+    for R in rules:
+        for L in (7, 5, 3, 5, 7, 3):
+            yield {'kind': 'sequence/int_to_bits_then_scribble', 'op': 'int_to_bits', 'num': R, 'd': 2 ** L, 'scribble': True}
+            for sch in ('default', 'nks'):
+                nb = [rng.randint(0, 1) for _ in range(L)]
+                rf, pw, cl = rng.choice([('int', False, False), ('int', True, False), ('int', False, True)])
+                yield {'kind': 'sequence/radius_%d' % (L // 2), 'op': 'binary_rule', 'nb': nb, 'rule': R, 'rule_form': rf,
+                       'scheme': sch, 'pows': pw, 'cls': cl}
+            yield {'kind': 'sequence/nks_radius_%d' % (L // 2), 'op': 'nks', 'nb': [rng.randint(0, 1) for _ in range(L)],
+                   'rule': R, 'cls': bool(rng.randint(0, 1))}
+
+
+_generate_base = generate
+
+
+def generate(rng, tier):
+    for c in _generate_base(rng, tier):
+        yield c
+    for c in _sequence_cases(rng, tier):
+        yield c
+
+
+def _scribble(arr):
+    try:
+        arr[...] = 1 - arr
+    except Exception:
+        pass
+
+
 def run_impl(c):
     import cellpylib as cpl
     op = c['op']
     if op == 'bits_to_int':
         r = call_impl(lambda: int(cpl.bits_to_int(c['bits'])))
     elif op == 'int_to_bits':
-        r = call_impl(lambda: [int(x) for x in cpl.int_to_bits(c['num'], c['d'])])
+        def _itb():
+            arr = cpl.int_to_bits(c['num'], c['d'])
+            out = [int(x) for x in arr]
+            if c.get('scribble'):
+                _scribble(arr)      # a caller may do what it likes with the array it was given
+            return out
+        r = call_impl(_itb)
     elif op == 'nks':
         nb = np.array(c['nb'])
         if c['cls']:
